@@ -284,7 +284,16 @@ def o12_1(tier):
         return pre, claim, {'L': L, 'c': c, 'iterated': it}
     res = astsmt.check_claim(build, lambda v: 'replay_arith(%d, %d, %r)' % (v['L'], v['c'], bool(v['iterated'])),
                              cross=(tier == 'thorough'), maxbits=32, timeout_s=120)
-    # translator validation on concrete vectors (the repo's own S2K test lengths and boundaries)
+    # translator validation on concrete vectors (the repo's own S2K test lengths and boundaries): the translated slice against the
+    # same slice compiled and run natively (NOT against the specification: on a changed tree the two legitimately differ from it)
+    ns = {}
+    mod = ast.Module([f], [])
+    ast.fix_missing_locations(mod)
+    exec(compile(mod, '<s2k_arith slice>', 'exec'), ns)
+    getter = String2Key.__dict__['count'].fget
+
+    class _C:
+        pass
     n = 0
     for L in (0, 1, 7, 8, 9, 11, 64, 1023, 1024, 1025, 65536, 70000):
         for c in (0, 1, 15, 16, 96, 254, 255):
@@ -295,10 +304,14 @@ def o12_1(tier):
                 tr = astsmt.Translator(ctx)
                 d = decode_count_term(tr, c)
                 got = tr.run_def(f, [L, d, it], {}, {}, z3.BoolVal(True), {})
-                unit = L
-                count = max(d, L) if it else L
-                want = (count, count // unit if count else 0, count - (count // unit if count else 0) * unit)
-                assert tuple(int(x) for x in got) == want, (L, c, it, got, want)
+                o = _C()
+                o._count = c
+                try:
+                    want = ns['s2k_arith'](L, getter(o), it)
+                except ZeroDivisionError:
+                    continue                      # the translator reports this through its own side obligation
+                if tuple(int(x) for x in got) != tuple(want):
+                    raise astsmt.Untranslatable('translator disagrees with native execution of the slice at %r: %r vs %r' % ((L, c, it), got, want))
                 n += 1
     res['validated'] = n
     return res
